@@ -52,7 +52,7 @@ class Measurements:
         return Measurements(
             data=[
                 Measurement(
-                    x=curve.feed_compositions[i].first,
+                    x=curve.feed_compositions[i].to_weight(curve.mixture).first,
                     t=curve.feed_temperature,
                     p=curve.permeances[i][0].value,
                 )
@@ -72,7 +72,7 @@ class Measurements:
         return Measurements(
             data=[
                 Measurement(
-                    x=curve.feed_compositions[i].first,
+                    x=curve.feed_compositions[i].to_weight(curve.mixture).first,
                     t=curve.feed_temperature,
                     p=curve.permeances[i][1].value,
                 )
